@@ -143,3 +143,81 @@ Theorem C04_model_file_loads_back :
   firstn (length (w_vocab w)) (skipn (header_size n) (body_of w iv)) = map Z.to_nat (sorted_vocab_bytes words) /\
   firstn (length (w_search w)) (skipn (header_size n + length (w_vocab w) + 0) (body_of w iv)) = map Z.to_nat (C03.TrieImage.trie_image array cfg n t pz).
 Proof. exact model_file_loads_back. Qed.
+
+(* ---- the hashed model types: the same for the probing and the rest-probing file (ProbingVocabulary region: DivMod probing table of
+   {MurmurHash64A hash; id}; search structure: C03/ProbingImage.v, whose memory lookup is the table lookup by
+   C03_probing_memory_table_invariants).  Whatever the write method and the previous contents of the mapping, the bytes left in the
+   file are the model's probing_file / rest_file, which the check compares byte for byte with the files the code writes. *)
+From Kenlm Require Import C03.ProbingImage.
+Theorem C04_probing_file_is_final_image : forall pm n t counts vb buckets words (iv : bool) wm vocab1 search1 file,
+  (2 <= n <= max_order)%nat -> length counts = n -> Forall nn words ->
+  probing_file pm n t counts vb buckets words iv = Some file ->
+  exists v s, probing_vocab_bytes words vb = Some v /\ probing_image t (S (Z.to_nat (nth 0 counts 0%Z))) buckets = Some s /\
+    (length vocab1 = length v -> length search1 = length s ->
+     map Z.of_nat (CrashProofs.final_image wm iv (contents_of (hashed_written false pm n counts v s words) iv vocab1 search1)) = file).
+Proof. exact probing_file_is_final_image. Qed.
+
+Theorem C04_rest_file_is_final_image : forall pm n t counts vb buckets unset words (iv : bool) wm vocab1 search1 file,
+  (2 <= n <= max_order)%nat -> length counts = n -> Forall nn words ->
+  rest_file pm n t counts vb buckets unset words iv = Some file ->
+  exists v s, probing_vocab_bytes words vb = Some v /\ rest_probing_image t (S (Z.to_nat (nth 0 counts 0%Z))) buckets unset = Some s /\
+    (length vocab1 = length v -> length search1 = length s ->
+     map Z.of_nat (CrashProofs.final_image wm iv (contents_of (hashed_written true pm n counts v s words) iv vocab1 search1)) = file).
+Proof. exact rest_file_is_final_image. Qed.
+
+(* ... and the loader of that hashed type accepts it and finds both regions where it looks for them *)
+Theorem C04_hashed_file_loads_back :
+  forall pm_ok body_size words_ok (rest : bool) pm n counts v s words (iv : bool) vocab1 search1 wm lcfg,
+  let w := hashed_written rest pm n counts v s words in
+  (2 <= n <= max_order)%nat -> length counts = n -> nn v -> nn s ->
+  length vocab1 = length v -> length search1 = length s ->
+  pm_ok [w_p0 w; w_p1 w; w_p2 w; w_p3 w] = true ->
+  l_model_type lcfg = w_model_type w -> l_search_version lcfg = w_search_version w ->
+  (l_enumerate lcfg = true -> iv = true) ->
+  body_size lcfg (CrashProofs.final_image wm iv (contents_of w iv vocab1 search1)) = (length (w_vocab w) + w_pad w + length (w_search w))%nat ->
+  (iv = true -> l_enumerate lcfg = true -> words_ok (w_counts w) (w_words w) = true) ->
+  load pm_ok body_size words_ok lcfg (CrashProofs.final_image wm iv (contents_of w iv vocab1 search1))
+    = Some (body_of w iv, if iv && l_enumerate lcfg then Some (w_words w) else None) /\
+  map Z.of_nat (firstn (length (w_vocab w)) (skipn (header_size n) (body_of w iv))) = v /\
+  map Z.of_nat (firstn (length (w_search w)) (skipn (header_size n + length (w_vocab w) + 0) (body_of w iv))) = s.
+Proof. exact hashed_file_loads_back. Qed.
+
+(* ---- the vocabulary lookups (lm/vocab.cc; model C04/VocabModel.v, answered against the implementation's own ids for every word of
+   every generated vocabulary and for unknown spellings).  Word ids are what ties a file's records to spellings:
+   SortedVocabulary::Index is the Pivot64 interpolation search between the sentinels (begin_ - 1, 0) and (end_, 2^64 - 1); whatever
+   the float pivot expression evaluates to, the id of a vocabulary word is 1 + the number of vocabulary words with a smaller
+   MurmurHash64A hash -- so the ids are a bijection onto 1 .. V-1 -- and a spelling whose hash is not in the vocabulary gets 0 = <unk>. *)
+From Kenlm Require Import C20.ProbingModel C04.VocabModel C04.VocabProofs.
+Theorem C04_sorted_vocab_id_is_rank : forall f words,
+  (forall o r w, (0 <= f o r w)%Z) -> NoDup (map hash_for_vocab words) ->
+  let hs := sort_z (map hash_for_vocab words) in
+  (forall w, In w words -> sorted_index f hs (hash_for_vocab w) = Some (Z.of_nat (rank (hash_for_vocab w) (map hash_for_vocab words)) + 1)%Z) /\
+  (forall q, ~ In (hash_for_vocab q) (map hash_for_vocab words) -> sorted_index f hs (hash_for_vocab q) = Some 0%Z).
+Proof. exact sorted_vocab_id_is_rank. Qed.
+
+Theorem C04_sorted_vocab_ids_distinct : forall words w1 w2,
+  In w1 words -> In w2 words ->
+  rank (hash_for_vocab w1) (map hash_for_vocab words) = rank (hash_for_vocab w2) (map hash_for_vocab words) ->
+  hash_for_vocab w1 = hash_for_vocab w2.
+Proof. exact sorted_vocab_ids_distinct. Qed.
+
+(* on any strictly increasing array of 64-bit hashes: position p answers p + 1, an absent hash answers 0 *)
+Theorem C04_sorted_index_spec : forall f hs key,
+  (forall o r w, (0 <= f o r w)%Z) -> strictly_sorted hs -> (forall h, In h hs -> (0 <= h < 2 ^ 64)%Z) -> (0 <= key < 2 ^ 64)%Z ->
+  (forall p, (p < length hs)%nat -> nth p hs 0%Z = key -> sorted_index f hs key = Some (Z.of_nat p + 1)%Z) /\
+  (~ In key hs -> sorted_index f hs key = Some 0%Z).
+Proof. exact sorted_index_spec. Qed.
+
+(* ProbingVocabulary::Index: with pairwise distinct non-zero hashes and room in the table, the i-th inserted word has id i + 1 and an
+   unknown non-zero hash gets 0 *)
+Theorem C04_probing_vocab_id_is_position : forall buckets words,
+  (0 < buckets)%nat -> (length words < buckets)%nat ->
+  NoDup (map hash_for_vocab words) -> (forall w, In w words -> hash_for_vocab w <> 0%Z) ->
+  exists t, table_of buckets (vocab_entries words) = Ok t /\
+    (forall i, (i < length words)%nat -> probing_index buckets t (hash_for_vocab (nth i words [])) = Some (Z.of_nat i + 1)%Z) /\
+    (forall q, hash_for_vocab q <> 0%Z -> ~ In (hash_for_vocab q) (map hash_for_vocab words) -> probing_index buckets t (hash_for_vocab q) = Some 0%Z).
+Proof. exact probing_vocab_id_is_position. Qed.
+
+(* every hash is a 64-bit value *)
+Theorem C04_hash_for_vocab_range : forall w, (0 <= hash_for_vocab w < 2 ^ 64)%Z.
+Proof. exact hash_for_vocab_range. Qed.
